@@ -119,6 +119,12 @@ func exec(op string) string {
 		return "bad-op"
 	}
 	f := strings.Split(op[i+1:], "|")
+	// every case starts from fresh modules (exec is a pure function of the op, also on a tree whose
+	// table Update keeps old state)
+	switch op[:i] {
+	case "ba", "jw", "sl", "bg", "br", "lk":
+		resetModules()
+	}
 	switch op[:i] {
 	case "ba":
 		if len(f) == 3 {
@@ -139,6 +145,10 @@ func exec(op string) string {
 	case "br":
 		if len(f) == 5 {
 			return execBlockReq(f)
+		}
+	case "rl":
+		if len(f) >= 5 {
+			return execReload(f)
 		}
 	case "lu":
 		if len(f) == 1 {
@@ -167,6 +177,9 @@ func exec(op string) string {
 func gen(r *vh.Rand) string {
 	if r.Chance(1, 6) {
 		return genLoad(r)
+	}
+	if r.Chance(1, 8) {
+		return genReload(r)
 	}
 	switch r.Intn(10) {
 	case 0, 1, 2:
